@@ -175,6 +175,14 @@ func init() {
 							calls[i] = genCall(i)
 						}
 						fb.Arm(&fakemc.Fault{Index: idx, Kind: ck.k, MidBytes: ck.mid})
+						{
+							var ds []string
+							for _, pc := range calls {
+								ds = append(ds, fmt.Sprintf("%s %s %q", pc.kind, pc.key, pc.keys))
+							}
+							crumb(fmt.Sprintf("%d concurrent callers on a batched pool, connection cut (%s) at backend request %d", n, ck.n, idx),
+								map[string]interface{}{"pool_config": ci, "calls": ds, "cut": ck.n, "cut_at_request": idx})
+						}
 						var wg sync.WaitGroup
 						msgs := make([]string, n)
 						for i := range calls {
@@ -254,6 +262,8 @@ func init() {
 						}
 					}
 				}()
+				crumb("8 concurrent callers x 30 calls on a batched pool while its connections are cut repeatedly",
+					map[string]interface{}{"pool_config": ci, "storm": s, "seed": seed})
 				var wg sync.WaitGroup
 				var mu sync.Mutex
 				var bads []string
